@@ -2,6 +2,7 @@ import vlib
 
 class P(vlib.Prop):
     id = "C04"
+    watch = ("pkg/apk/apk/index.go", "pkg/apk/apk/apkindex.go", "pkg/apk/signature/rsa.go")
     rule = ("names stage: signatureFileRegex.FindStringSubmatch on hand-picked and generated entry names vs the model's splitter; "
             "parse stage: a corpus of hand-picked archives (every rejection reason, every opt-out combination, DSA/RSA512 names carrying valid RSA signatures, "
             "key names with '/', extra entries in the signature member, several signatures of which a later one verifies, meta-headers and zero blocks left "
